@@ -341,10 +341,10 @@ theorem MidInv_update (p : Params) (start : Nat → Int) (V : List Nat) (x : Nat
     refund), top-up, info update — keeps the invariant of every candidate `x`; on the code as it stands (flag check on),
     with a positive deposit rate -/
 theorem doRegister_midInv (c : Ctx) (hfc : c.flagCheck = true) (hD : 0 < c.p.depositRate) (start : Nat → Int) (V : List Nat)
-    (x : Nat) (e : Int) (s s' : St) (fr : Nat) (amt : Int) (flag inc : Nat) (nd : Bool)
-    (h : doRegister c s fr amt flag inc nd = .ok s') (hI : MidInv c.p start V x e s) : MidInv c.p start V x e s' := by
+    (x : Nat) (e : Int) (s s' : St) (fr : Nat) (amt : Int) (flag inc : Nat) (nd : Bool) (px : TxProfile)
+    (h : doRegister c s fr amt flag inc nd px = .ok s') (hI : MidInv c.p start V x e s) : MidInv c.p start V x e s' := by
   unfold doRegister at h
-  simp only [hfc, true_and] at h
+  simp only [depositAfterOverlay_true, hfc, true_and] at h
   split at h; · cases h
   rename_i hvalid
   split at h
@@ -461,9 +461,9 @@ theorem body_midInv (c : Ctx) (hfc : c.flagCheck = true) (hD : 0 < c.p.depositRa
   | vote cand =>
     simp only [hk] at h
     exact doVote_midInv c start V hV x hx0 e s s' _ _ _ h (hcl cand hk) hI
-  | register amt flag inc nd =>
+  | register amt flag inc nd px =>
     simp only [hk] at h
-    exact doRegister_midInv c hfc hD start V x e s s' _ _ _ _ _ h hI
+    exact doRegister_midInv c hfc hD start V x e s s' _ _ _ _ _ _ h hI
   | setSigners tg l tok =>
     simp only [hk] at h
     unfold doSetSigners at h
@@ -567,7 +567,7 @@ theorem applyTx_midInv (c : Ctx) (hfc : c.flagCheck = true) (hD : 0 < c.p.deposi
       | box => exact absurd hk2 (by simpa using hk)
       | transfer to v => simp only [hk2, List.all_cons, List.all_nil, Bool.and_true] at hcl; exact hcl
       | vote cand => simp only [hk2, List.all_cons, List.all_nil, Bool.and_true] at hcl; exact hcl
-      | register a b c' d => simp only [hk2, List.all_cons, List.all_nil, Bool.and_true] at hcl; exact hcl
+      | register a b c' d px => simp only [hk2, List.all_cons, List.all_nil, Bool.and_true] at hcl; exact hcl
       | setSigners a b c' => simp only [hk2, List.all_cons, List.all_nil, Bool.and_true] at hcl; exact hcl
       | other => simp only [hk2, List.all_cons, List.all_nil, Bool.and_true] at hcl; exact hcl
     exact applySimple_midInv c hfc hD start V hV x hx0 e s s' gp gp' g tx h hcl' hI
